@@ -5,13 +5,17 @@ from lib import gen, sysrun
 from lib.sysrun import Case
 
 LEVEL = "proof"
-CHECKER = "lake build KalignModel.Props.PipelineFile && lake env lean KalignModel/Audit/C04.lean"
+CHECKER = "lake build KalignModel.Props.C04All && lake env lean KalignModel/Audit/C04.lean"
 GLYPHS = "-.~*_"
 
 
 def theorems():
-    p = os.path.join(C.LEAN, "KalignModel", "Props", "C04.theorems")
-    return [l.strip() for l in open(p) if l.strip() and not l.startswith("#")] if os.path.exists(p) else []
+    out = []
+    for f in ("C04.theorems", "C04Sniff.theorems"):
+        p = os.path.join(C.LEAN, "KalignModel", "Props", f)
+        if os.path.exists(p):
+            out += [l.strip() for l in open(p) if l.strip() and not l.startswith("#")]
+    return out
 
 
 def gap_rows(rng, recs, density):
@@ -123,7 +127,7 @@ def run(ctx):
                         "(records, presentation) pairs whose output alignment has >= 1 gap")
     thms = theorems()
     thms = thms + C.pipefile_theorems(["kalignFile_presentation_independent", "dealignStep_congr"]) if thms else thms
-    ok = C.lean_obligations(ctx, "C04", thms, module="PipelineFile") if thms else False
+    ok = C.lean_obligations(ctx, "C04", thms, module="C04All") if thms else False
     if not thms:
         ctx.obligations.append(dict(name="Props/C04 theorems", ok=False, why="theorem list missing"))
     kvh = C.build_harness("asan")
